@@ -181,8 +181,8 @@ fn gen_case<const D: usize>(cs: u64, thorough: bool) -> Spec<D> {
         (4, false) => 9,
         (_, false) => 7,
         (2, true) | (3, true) => 7 * D,
-        (4, true) => 16,
-        (_, true) => 12,
+        (4, true) => 11,
+        (_, true) => 9,
     };
     let n = D + 2 + rng.usize(extra);
     let mut pts = g::points::<D>(&mut rng, fam, n);
@@ -386,7 +386,7 @@ fn spawn_children(doc: &Value, k: usize) -> Vec<Result<Summary, String>> {
     }
     let mut kids = Vec::new();
     for _ in 0..k {
-        kids.push(Command::new(&exe).arg(P).arg("--replay").arg(&path).arg("--budget").arg("600").stdin(Stdio::null()).stdout(Stdio::piped()).stderr(Stdio::null()).spawn());
+        kids.push(Command::new(&exe).arg(P).arg("--replay").arg(&path).arg("--budget").arg("600").env_remove("DVERIF_C14_CORRUPT").stdin(Stdio::null()).stdout(Stdio::piped()).stderr(Stdio::null()).spawn());
     }
     let mut res = Vec::new();
     for kid in kids {
@@ -468,7 +468,13 @@ where
     let opts = spec.opts.clone();
 
     // ---------------------------------------------------------------- A. repeatability
+    let t_first = std::time::Instant::now();
     let first = build_variant::<K, D>(&inp, gu, &opts, None, None);
+    // a case whose single construction takes more than a second gets a reduced programme
+    let slow = t_first.elapsed().as_millis() > 1000;
+    if slow {
+        out.count("cases/slow-construction-reduced-programme");
+    }
     out.count(&format!("builds/base/{}", first.sum.class));
     if let Some(pi) = &first.panic {
         out.panic(P, pi, "batch construction", rp("A", json!(null)));
@@ -499,7 +505,7 @@ where
         // a different entry point, so only counted (not this property's business)
         out.count(if sum == first.sum { "other/statistics-constructor/same-as-plain" } else { "other/statistics-constructor/differs-from-plain" });
     }
-    let k_same = if thorough { 4 } else { 2 };
+    let k_same = if slow { 1 } else if thorough { 4 } else { 2 };
     for r in 0..k_same {
         let again = build_variant::<K, D>(&inp, gu, &opts, None, None);
         out.count(&format!("builds/repeat-same-thread/{}", again.sum.class));
@@ -588,7 +594,7 @@ where
     if !judge_b {
         out.count(if spec.has_dup { "B/not_judged/exact-duplicate-coordinates" } else { "B/not_judged/epsilon-dedup-may-drop-by-input-order" });
     }
-    let n_perm = if thorough || D <= 3 { 8 } else if D == 4 { 4 } else { 3 };
+    let n_perm = if slow { 2 } else if D <= 3 { 8 } else if thorough { 6 } else if D == 4 { 4 } else { 3 };
     for ord in [InsertionOrderStrategy::Hilbert, InsertionOrderStrategy::Morton, InsertionOrderStrategy::Lexicographic] {
         let name = order_name(ord);
         let reference = build_variant::<K, D>(&inp, gu, &opts, Some(ord), None);
@@ -598,6 +604,10 @@ where
         }
         if judge_b {
             for _ in 0..n_perm {
+                if ctx.replay.is_none() && ctx.elapsed() > ctx.budget_s * 1.25 {
+                    out.count("B/not_judged/permutations-cut-by-time-budget");
+                    break;
+                }
                 let ps = spec.rng.next_u64();
                 let b = build_variant::<K, D>(&inp, gu, &opts, Some(ord), Some(ps));
                 out.count(&format!("builds/order-{}-permuted/{}", name, b.sum.class));
@@ -788,12 +798,19 @@ pub fn run(ctx: &Ctx, out: &mut Out) {
     let thorough = ctx.tier == Tier::Thorough;
     let cap = (if thorough { 200_000.0 } else { 3_000.0 } * ctx.scale) as u64;
     let mut i = 0u64;
+    let mut slowest = (0u128, 0u64, 0usize);
     while i < cap && !ctx.out_of_time() {
         let cs = ctx.case_seed(i);
         let d = super::c01::pick_dim_hist(ctx, cs >> 7);
         let kn = if (cs >> 3) & 1 == 0 { Kn::Fast } else { Kn::Robust };
         let spawn = thorough || i % 4 == 0;
+        let t = std::time::Instant::now();
         run_case(ctx, out, cs, d, kn, spawn, thorough);
+        let ms = t.elapsed().as_millis();
+        if ms > slowest.0 {
+            slowest = (ms, cs, d);
+        }
         i += 1;
     }
+    out.notes.push(format!("slowest case: seed {} D{} {} ms", slowest.1, slowest.2, slowest.0));
 }
